@@ -315,8 +315,10 @@ func (t *Dense) fix() {
 
 // makeMask adds a mask slice to tensor if required
 func (t *Dense) makeMask() {
+	// one entry per element of the storage window, which is what IsMasked asks for and how a mask is indexed:
+	// for a view that is more than the number of elements of its shape
 	var size int
-	size = t.shape.TotalSize()
+	size = t.len()
 	if len(t.mask) >= size {
 		t.mask = t.mask[:size]
 	}
